@@ -109,6 +109,16 @@ type Trans struct {
 
 func (t *Trans) trust(s string) { t.trusted[s] = true }
 
+// globalAddr declares the address of a package-level variable: non-nil and allocated before the function runs.
+func (t *Trans) globalAddr(name string) string {
+	qn := q(name)
+	if !t.B.declared[qn] {
+		c := t.B.declConst(name, "Int")
+		t.B.assert(fmt.Sprintf("(and (> %s 0) (<= %s %s))", c, c, t.entry.alloc))
+	}
+	return qn
+}
+
 func (t *Trans) arrayEntryName(name, base string) string { return name + "#" + base }
 
 func (t *Trans) heapSort(name string) string { return t.arrSort[name] }
@@ -275,6 +285,8 @@ type frame struct {
 	curLoopHdrState map[*ssa.BasicBlock]*State
 	retCount int
 	fc     *FuncContract
+	site   ssa.CallInstruction
+	lets   map[string]cval
 }
 
 func (t *Trans) newFrame(fn *ssa.Function, top bool, depth int) *frame {
@@ -581,6 +593,7 @@ func (f *frame) valOf(v ssa.Value) *Val {
 		// package-level variable: address of a private state variable
 		tp := x.Type().(*types.Pointer).Elem()
 		name := "G:" + pkgQualifier(x.Pkg.Pkg.Path()) + "." + x.Name()
+		t.globalAddr(name)
 		if _, _, ok := isStructPtr(x.Type()); ok {
 			val := &Val{term: t.B.declConst(name, "Int")}
 			f.vals[v] = val
